@@ -203,7 +203,12 @@ func c08Random(c *Ctx, i int, r *gen.R) {
 		hdr = 2
 	}
 	spec := r.Table(gen.TableOpts{MaxCols: 5, MaxRows: 6, Header: hdr, ZeroHeaderOK: true, MinCols: 0, Noise: gen.NoiseSkipable | gen.NoiseCallbacks | gen.NoiseFailingCallbacks | gen.NoiseAlignElsewhere,
-		Item: func(r *gen.R) gen.ItemSpec { return r.TextItemSized(c08Fam, 6, length.StringCells) }})
+		Item: func(r *gen.R) gen.ItemSpec {
+			if r.Chance(1, 15) {
+				return r.AnyItem(c08Fam, 4, 1) // the whole item zoo: whatever the item is, the cell shows the cell's text
+			}
+			return r.TextItemSized(c08Fam, 6, length.StringCells)
+		}})
 	cs := &c08Case{Table: spec, Aligns: make([]int, spec.NCols()+1)}
 	if r.Chance(3, 4) {
 		for k := range cs.Aligns {
